@@ -35,13 +35,18 @@ PROP = dict(
         "the reference always computes with the shift of the domain actually involved",
         "a polynomial is one record of a stream: WriteTo/ReadFrom are asserted to write/consume exactly their encoding and to return "
         "that count (also on failing writers and truncated streams), which is how callers store several objects on one stream",
+        "sizes that are not a power of two (3, 5, 6, 7, 12, 13, 17, 31, 33) are objects like any other: the bare coefficient vector "
+        "(Canonical/Regular, convertible only on a larger domain) and every form on the next power of two with SetSize; Shift(k) "
+        "means p(w^k X) with w = fft.Generator(size) of order NextPowerOfTwo(size) (what Evaluate implements), for every int k; the "
+        "uint32 shift field of the encoding keeps k modulo 2^32, which is congruent modulo that order, so every int shift must "
+        "survive WriteTo->ReadFrom (checked on the decoded object before anything else touches its shift)",
         "GetCoeff in Canonical basis is asserted for shift 0 only (the doc comment does not define shifted coefficients)",
         "the layout left behind by a basis conversion is not documented: the model adopts the flag the object reports and asserts "
         "that flag and stored entries agree",
         "not asserted (undocumented): Polynomial.Sub / Equal on mismatching lengths, Add/Eval/InterpolateOnRange on empty input, "
         "MultiLin.Evaluate with fewer coordinates than variables, ratio builders when a denominator factor vanishes; "
         "fr/polynomial exported functions not called: Pool.PrintPoolStats (prints to stdout), MultiLin.FoldParallel's untouched upper half",
-        "fix patches /verif/fixes/F12[a-h]-*.patch are applied to the /repo working tree (defect cluster F12, DESIGN §6)",
+        "fix patches /verif/fixes/F12[a-g,i]-*.patch are applied to the /repo working tree (defect cluster F12, DESIGN §6)",
     ],
     mandatory_all=["eval_x:domain", "eval_x:coset", "eval_shift:neg", "eval_shift:gt5", "eval_shift:ge_size", "coeff_shift:neg",
                    "last_op:WriteRead", "last_op:GrowCoset", "size:1", "op:ShallowClone", "mode:pipeline", "mode:satisfied",
@@ -54,7 +59,9 @@ PROP = dict(
                    "op:FoldParallel", "op:FoldParallelPool", "chunk:odd_start_odd_len", "chunk:odd_start_even_len",
                    "chunk:even_start_odd_len", "op:PoolClone",
                    "reader:plain_wrapper", "reader:one_byte", "reader:data_err", "reader:bufio.Reader", "stream:two_objects",
-                   "stream:foreign_bytes_between", "stream:truncated", "writer:failing_partial=true"],
+                   "stream:foreign_bytes_between", "stream:truncated", "writer:failing_partial=true",
+                   "roundtrip:size_not_pow2+shift_outside_[0,size)", "roundtrip:negative_shift", "roundtrip:shift_ge_nextpow2",
+                   "roundtrip:shift_beyond_uint32", "size_not_pow2", "init_bare_vector", "size:3", "size:12", "F12i"],
     jobs=[
         dict(name="regress", pkg="c20", run="^TestC20_(Regress.*|RefSelf)$", rapid=False),
         dict(name="exhaustive", pkg="c20", run="^TestC20_Exhaustive$", rapid=False, shards=_curves, seeds=(3, 8),
